@@ -322,6 +322,27 @@ class Sym:
         if isinstance(st, ast.Return):
             if st.value is None:
                 return [Path(conds, events, ("return", "None"), env)]
+            # N12: `return any(E for x in S)` is the search loop `for x in S: if E: return True` followed by `return False`
+            #      (`all` dually); a filter of the generator is a conjunct of the test
+            v_ = st.value
+            if isinstance(v_, ast.Call) and isinstance(v_.func, ast.Name) and v_.func.id in ("any", "all") and len(v_.args) == 1 \
+                    and isinstance(v_.args[0], (ast.GeneratorExp, ast.ListComp)) and len(v_.args[0].generators) == 1 and not v_.keywords:
+                if getattr(st, "_search_loop", None) is not None:          # one loop object per return statement: loop ordinals stay stable
+                    return self.run(list(st._search_loop), env, conds, events)
+                g_ = v_.args[0].generators[0]
+                test = v_.args[0].elt if v_.func.id == "any" else ast.UnaryOp(op=ast.Not(), operand=v_.args[0].elt)
+                hit = ast.If(test=test, body=[ast.Return(value=ast.Constant(value=v_.func.id == "any"))], orelse=[])
+                body_ = [hit]
+                if g_.ifs:
+                    cond_ = g_.ifs[0] if len(g_.ifs) == 1 else ast.BoolOp(op=ast.And(), values=list(g_.ifs))
+                    body_ = [ast.If(test=cond_, body=[hit], orelse=[])]
+                loop = ast.For(target=g_.target, iter=g_.iter, body=body_, orelse=[])
+                tail = ast.Return(value=ast.Constant(value=v_.func.id != "any"))
+                for n_ in (loop, tail):
+                    ast.copy_location(n_, st)
+                    ast.fix_missing_locations(n_)
+                st._search_loop = (loop, tail)
+                return self.run([loop, tail], env, conds, events)
             return self._with_call(st.value, env, conds, events, lambda v, e2, c2, ev2: [
                 Path(c2, ev2, ("return", norm(strip_result_wrappers(v) if self.strip else v)), e2)])
         if isinstance(st, ast.Raise):
